@@ -48,7 +48,7 @@ STEP_CAP = 200000
 # its whole world (tree, model, Sim) from scratch, nothing is kept between runs
 ISOLATION = "thread"
 # fraction of runs that may enter the states listed in treesim.GUARDS (reported defects)
-P_UNGUARDED = 0.0
+P_UNGUARDED = float(__import__("os").environ.get("VERIF_UNGUARDED", "0") or 0)
 
 
 _warmed = []
@@ -132,11 +132,17 @@ def config(tier):
     return {"budget_s": 45, "run_timeout": 120, "selftest": 24, "workers": 8}
 
 
+def _p_unguarded_c10():
+    from . import C10
+
+    return C10.P_UNGUARDED
+
+
 def generate(rng, tier, compare=False):
     flavour = rng.choice(["bzr", "bzr", "git"])
     names = T.make_namespace(rng)
     weights = T.swarm_weights(rng)
-    unguarded = sorted(T.GUARDS) if rng.random() < P_UNGUARDED else []
+    unguarded = sorted(T.GUARDS) if rng.random() < (P_UNGUARDED if not compare else _p_unguarded_c10()) else []
     model = T.MTree(flavour, unguarded)
     n = rng.randint(5, 25)
     ops = T.gen_ops(rng, model, n, weights, names)
@@ -248,21 +254,9 @@ def refused_ok(exc):
 
 
 def execute(sim, plan, extra=None):
-    import os
-
-    if os.environ.get("VERIF_DUMP_LOG"):
-        try:
-            return _execute(sim, plan, extra)
-        finally:
-            with open(os.environ["VERIF_DUMP_LOG"] + ".%s.%d" % (sim.digest()[:8], os.getpid()), "w") as f:
-                for e in sim.log:
-                    f.write(" | ".join(e) + "\n")
-    return _execute(sim, plan, extra)
-
-
-def _execute(sim, plan, extra=None):
     warm()
     T.quiet()
+    T.settle_randomness(sim.seed)
     world.setup_sim(sim)
     fl = plan["flavour"]
     import os
